@@ -7,8 +7,8 @@ PROP = {
     "technique": "runtime monitoring: real server+raw QUIC/h3 clients on simnet in a synctest bubble, offline oracle over an ordered event log",
     "jobs": [
         job("authgate", "core", "./internal/integration_tests/", "integration_tests",
-            [KIT, "harness/core/internal/integration_tests/c01_test.go"], "^TestVerifC01$",
-            ["c01-auth-gate"], race=False, timeout_quick=600, timeout_thorough=3600),
+            [KIT, "harness/core/internal/integration_tests/c01_test.go"], "^TestVerifC01",
+            ["c01-auth-gate", "c01-concurrent-auth"], race=False, timeout_quick=600, timeout_thorough=3600),
     ],
     "min_events": 200,
     "rule": ("PRNG scripts over 2..6 concurrent raw connections to one real server (virtual time, one-way latency "
@@ -19,7 +19,10 @@ PROP = {
              "UDP write and TCP/UDP request event must be preceded in the log by auth_ok of the same connection; no "
              "Authenticate call after acceptance; repeated auth answers 233; never-authenticated connections read 0 "
              "stream bytes / 0 datagrams; requests sent after the client saw 233 (also after a later rejected "
-             "attempt) reach the outbound. Non-trivial = script mixes auth actions with proxy actions; distinct = "
+             "attempt) reach the outbound. concurrent-auth (real time on simnet, because a request waiting on the handler's "
+             "mutex would stop a bubble's clock): a second/third auth request is sent while the authenticator still "
+             "holds the first; verdicts by log order only: one acceptance per connection, no Authenticate after it, "
+             "one Connect event, nothing proxied before it. Non-trivial = script mixes auth actions with proxy actions; distinct = "
              "distinct script."),
     "assumptions": [
         "absence is observed until virtual quiescence plus 1 s virtual settle",
